@@ -126,18 +126,18 @@ theorem C01_roundtrip (v : PyVal) (h : WF v) :
     ∃ b, dumps v = .ok b ∧ loads cfgPublic b = .ok v := by
   refine ⟨_, C01_total v h, ?_⟩
   simp only [loads, if_true]
-  rw [run_enc cfgPublic rfl v h [opSTOP] []]
+  rw [run_enc cfgPublic rfl rfl v h [opSTOP] []]
   rw [run_stop (step_STOP cfgPublic [] [v])]
   rfl
 
 /-- **C01 (round-trip, channel path).** `Channel.send` encodes with `dumps_internal` and the peer
 decodes with `loads_internal` under the channel's string configuration; with any configuration
 that does not ask for py3 `str` as py2 `str` (the default) the received value is exactly `v`. -/
-theorem C01_roundtrip_channel (cfg : Cfg) (hcfg : cfg.py3str_as_py2str = false) (v : PyVal)
-    (h : WF v) : ∃ b, encodeInternal v = .ok b ∧ loadsInternal cfg b = .ok v := by
+theorem C01_roundtrip_channel (cfg : Cfg) (hcfg : cfg.py3str_as_py2str = false)
+    (hmem : cfg.memLimit = none) (v : PyVal) (h : WF v) : ∃ b, encodeInternal v = .ok b ∧ loadsInternal cfg b = .ok v := by
   refine ⟨enc v ++ [opSTOP], by simp [encodeInternal, dumpErr_of_WF v h], ?_⟩
   simp only [loadsInternal]
-  rw [run_enc cfg hcfg v h [opSTOP] []]
+  rw [run_enc cfg hcfg hmem v h [opSTOP] []]
   rw [run_stop (step_STOP cfg [] [v])]
   rfl
 
